@@ -84,6 +84,15 @@ fn real_main(args: &[String]) -> i32 {
         "c14-exec" => c14::driver::exec_main(rest),
         "c14-anchor" => c14::anchors::anchor_main(rest),
         "c14-one" => c14::one_main(rest),
+        "c14-dump" => {
+            // debugging aid: print generated episodes `fqsim c14-dump <first> <count>`
+            let a: u64 = rest.first().and_then(|s| s.parse().ok()).unwrap_or(0);
+            let n: u64 = rest.get(1).and_then(|s| s.parse().ok()).unwrap_or(1);
+            for i in a..a + n {
+                println!("{}", serde_json::to_string(&c14::egen::gen_episode(report::verif_seed(), i)).unwrap());
+            }
+            0
+        }
         "selftest" => selftest::main(rest),
         _ => usage(),
     }
